@@ -209,6 +209,11 @@ theorem permInv_length (k : Nat) (l : List Id) : (permInv k l).length = l.length
 /-- which property's predicate to evaluate: the domain is registered once per property (`sys-C01`, …) so that each
 check reports violations of its own property; `sys` evaluates all of them -/
 def handleSysFor (prop : String) : Handler := fun i o => do
+  -- the process that ran this history died (a panic on one of the library's goroutines): a concrete violation of whichever
+  -- property is being checked — every one of them presupposes that the run ends and reports
+  if let some (Json.str why) := jopt o "crash" then
+    return { model := Json.null, agree := false, spec := false, specModel := true, nontrivial := true,
+             note := "the run did not end: " ++ why, tags := ["crash"], region := none }
   let pre ← (← asList (← jget i "pre")).mapM manifestOfJson
   let runs ← (← asList (← jget i "runs")).mapM runOfJson
   let c0 : Cluster := pre.foldl (fun c m => c.putPre m) {}
@@ -275,6 +280,11 @@ either the stream is well-formed, ends with the context error (if anything was t
 status watcher is stopped.  The scene adds two status events for the one object named in `initial` (the one the runner is kept
 busy with): the model gets them as extra initial statuses. -/
 def handleSyncRace : Handler := fun i o => do
+  -- the process that ran this history died (a panic on one of the library's goroutines): a concrete violation of whichever
+  -- property is being checked — every one of them presupposes that the run ends and reports
+  if let some (Json.str why) := jopt o "crash" then
+    return { model := Json.null, agree := false, spec := false, specModel := true, nontrivial := true,
+             note := "the run did not end: " ++ why, tags := ["crash"], region := none }
   let pre ← (← asList (← jget i "pre")).mapM manifestOfJson
   let runs ← (← asList (← jget i "runs")).mapM runOfJson
   let c0 : Cluster := pre.foldl (fun c m => c.putPre m) {}
